@@ -53,9 +53,39 @@ def mk(n, p):
     return Prefixed(number=Decimal(n), prefix=Prefix(p))
 
 
+def mk_hist(n, p, hist):
+    """the number n * 10^p reached through a HISTORY of the object: another value was built (and hashed, compared, used as a
+    dict key) first, then the fields were re-assigned / the object copied with an update.  Prefixed is an ordinary mutable
+    pydantic model; what the object denotes afterwards is its current fields."""
+    kind, n0, p0 = hist
+    x = mk(n0, p0)
+    seen = {x: 0}
+    hash(x); x == x; float(x)
+    if kind == "assign":
+        x.number = Decimal(n); x.prefix = Prefix(p)
+        return x
+    if kind == "assign-prefix-first":
+        x.prefix = Prefix(p); hash(x); x.number = Decimal(n)
+        return x
+    if kind == "copy-update":
+        return x.model_copy(update=dict(number=Decimal(n), prefix=Prefix(p)))
+    if kind == "copy-then-assign":
+        y = x.model_copy()
+        hash(y)
+        y.number = Decimal(n); y.prefix = Prefix(p)
+        return y
+    if kind == "deepcopy-update":
+        y = x.model_copy(deep=True, update=dict(prefix=Prefix(p)))
+        y.number = Decimal(n)
+        return y
+    raise ValueError(kind)
+
+
 def do_pair(j):
-    na, pa, nb, pb = j
+    na, pa, nb, pb = j[:4]
     a, b = mk(na, pa), mk(nb, pb)
+    if len(j) > 4 and j[4] is not None:
+        a = mk_hist(na, pa, j[4])
     sb = Decimal(nb)
     out = dict(
         add=val(lambda: a + b), sub=val(lambda: a - b), mul=val(lambda: a * b),
